@@ -744,6 +744,8 @@ def stmts(e, lets=None):
             out.extend(stmts(e["expr"], lets))
         return out
     if k == "Match":
+        if str(e.get("source", "")).startswith("TryDesugar"):
+            return [("expr", sx(e, lets), sp)]
         fl = for_loop_parts(e)
         if fl:
             it, pat, body = fl
